@@ -714,11 +714,11 @@ pub fn gen_invalid_instance(rng: &mut Rng, schema: &Value, defs: &Defs) -> Optio
 fn gen_invalid_instance_inner(rng: &mut Rng, schema: &Value, defs: &Defs) -> Option<Value> {
     let valid = gen_instance(rng, schema, defs, 0)?;
     let candidates: Vec<Value> = match &valid {
-        Value::Bool(_) => vec![json!("yes"), json!(1)],
-        Value::Number(_) => vec![json!("7"), json!(true), json!(-1), json!(70000), json!(300)],
-        Value::String(_) => vec![json!(5), json!(false), json!("a-value-that-is-much-too-long-for-it"), json!("nonmember")],
+        Value::Bool(_) => vec![json!("yes"), json!(1), json!(null)],
+        Value::Number(_) => vec![json!("7"), json!(true), json!(-1), json!(70000), json!(300), json!(null)],
+        Value::String(_) => vec![json!(5), json!(false), json!("a-value-that-is-much-too-long-for-it"), json!("nonmember"), json!(null)],
         Value::Array(a) => {
-            let mut v = vec![json!("nope"), json!({})];
+            let mut v = vec![json!("nope"), json!({}), json!(null)];
             let mut longer = a.clone();
             longer.push(json!(null));
             v.push(Value::Array(longer));
@@ -731,7 +731,7 @@ fn gen_invalid_instance_inner(rng: &mut Rng, schema: &Value, defs: &Defs) -> Opt
             v
         }
         Value::Object(m) => {
-            let mut v = vec![json!([]), json!("obj")];
+            let mut v = vec![json!([]), json!("obj"), json!(null)];
             // one member too many (invalid for closed objects, for externally
             // tagged variants, ...)
             let mut more = m.clone();
@@ -1040,6 +1040,7 @@ const POISONS: &[&str] = &[
     "dangling-ref",
     "external-ref",
     "unhandled-not",
+    "variant-collision",
 ];
 
 fn poison_schema(kind: &str) -> Value {
@@ -1052,6 +1053,8 @@ fn poison_schema(kind: &str) -> Value {
         "dangling-ref" => json!({"$ref": "#/definitions/NowhereToBeFound"}),
         "external-ref" => json!({"$ref": "other.json#/definitions/Elsewhere"}),
         "unhandled-not" => json!({"not": {"type": "object", "properties": {"a": {"type": "string"}}}}),
+        // serde-derivable (two renamed variants), but typify panics: no unique variant names
+        "variant-collision" => json!({"type": "string", "enum": ["foo_bar", "plain", "foo-bar"]}),
         _ => json!(false),
     }
 }
@@ -1474,6 +1477,16 @@ pub fn generate(seed: u64, focus: Focus, faults: bool) -> RunDesc {
     let _ = &overlap;
     ops.push(Op::Inspect);
     ops.push(Op::Render);
+    if focus == Focus::Compile && !faults && sw.awkward && sw.relation.is_none() && rng.chance(1, 12) {
+        // last of all: what schemars emits for a serde-derivable enum with two
+        // renamed variants that differ only in a separator; nothing follows it
+        // (typify panics on it: known finding, see known_findings.json)
+        ops.push(Op::AddType {
+            schema: json!({"type": "string", "enum": ["foo_bar", "plain", "foo-bar"]}),
+            hint: Some("Separators".into()),
+            poison: None,
+        });
+    }
 
     // ----- faults -----
     if faults && fault_rng.chance(2, 3) {
